@@ -219,7 +219,7 @@ def gen_op(rnd, vk, cur):
         s = gen_slice(rnd, n)
         cnt = len(range(*slice(*s).indices(n))) if s[2] != 0 else rnd.randint(0, 2)
         m = cnt if rnd.random() < 0.7 else rnd.randint(0, 4)
-        return [k, s, gen_items(rnd, vk, m, cur)]
+        return [k, s, gen_items(rnd, vk, m, cur)] + (["loose"] if rnd.random() < 0.15 else [])
     if k == "DelInt":
         return [k, gen_index(rnd, n, huge=10 ** 30)]
     if k == "DelSlice":
@@ -227,7 +227,7 @@ def gen_op(rnd, vk, cur):
     if k == "Append":
         return [k, gen_items(rnd, vk, 1, cur)[0]]
     if k in ("Extend", "Iadd"):
-        return [k, gen_items(rnd, vk, rnd.choice([0, 1, 1, 2, 3, 5]), cur)]
+        return [k, gen_items(rnd, vk, rnd.choice([0, 1, 1, 2, 3, 5]), cur)] + (["loose"] if rnd.random() < 0.15 else [])
     if k == "Imul":
         m = rnd.choice([-1, 0, 1, 2, 2, 3])
         return [k, m if n * m <= 40 else rnd.choice([0, 1])]
